@@ -1,6 +1,6 @@
 """C11: rename_labels / rename_tracks / relabel_tracks / subset."""
 from harness import enc, gen
-from harness.annutil import enc_names, enc_triples, mk_ann, nm, rand_records, triples, LABELS
+from harness.annutil import assert_independent, enc_names, enc_triples, mk_ann, nm, rand_records, triples, LABELS
 from harness.props.c07 import enc_oann, _oann
 from harness.timebase import TB, REGIMES
 
@@ -82,6 +82,15 @@ def run(case):
         out["subset"] = _oann(tb, b.subset(list(case["subset"])))
         out["subset_inv"] = _oann(tb, b.subset(set(case["subset"]), invert=True))
         assert triples(tb, b) == triples(tb, mk())
+        # every result that is promised to be a new annotation is independent of its source (checked last: it edits both)
+        assert_independent(tb, r, a, "rename_labels(mapping)")
+        for what, f in (("rename_labels(generator)", lambda x: x.rename_labels(generator=_gen(case["gen"]))),
+                        ("rename_tracks", lambda x: x.rename_tracks(generator=_gen(case["gen"]))),
+                        ("relabel_tracks", lambda x: x.relabel_tracks(generator=_gen(case["gen"]))),
+                        ("subset", lambda x: x.subset(list(case["subset"]))),
+                        ("subset(invert)", lambda x: x.subset(set(case["subset"]), invert=True))):
+            src = mk()
+            assert_independent(tb, f(src), src, what)
         return out
     finally:
         tb.leave()
